@@ -755,6 +755,23 @@ impl TcpConnection {
     /// Start the connection event loop without notifying protocols.
     /// This is used when protocols have already been notified during accept().
     pub(crate) async fn start(mut self) -> crate::Result<()> {
+        let result = self.run_event_loop().await;
+
+        // The error exits of the event loop skip the regular close path. Protocols and the
+        // transport manager must still learn that the connection is gone, otherwise the peer
+        // stays "connected" forever. This is a no-op if the connection was already reported.
+        if result.is_err() {
+            let _ = self
+                .protocol_set
+                .report_connection_closed(self.peer, self.endpoint.connection_id())
+                .await;
+        }
+
+        result
+    }
+
+    /// Run the connection event loop until the connection is closed or an error occurs.
+    async fn run_event_loop(&mut self) -> crate::Result<()> {
         loop {
             tokio::select! {
                 substream = self.connection.next() => {
